@@ -227,4 +227,118 @@ def fileCheck (accepted : List (String × Int)) (prefixU : Str) (cmd : Str) (ps 
       | some k => .ok k ps
       | none => .rej "do"
 
+
+/-! ### mod_header (header actions with literal values) -/
+
+def sHttp : Str := ['h','t','t','p',':','/','/']
+def sHttps : Str := ['h','t','t','p','s',':','/','/']
+
+/-- `Header.Get`: first value or "" -/
+def hdrGet (h : List (Str × List Str)) (k : Str) : Str :=
+  match h.find? (·.1 == k) with
+  | some (_, v :: _) => v
+  | _ => []
+
+/-- `headerRename` guarded as in processHeader -/
+def hdrRename (h : List (Str × List Str)) (o n : Str) : List (Str × List Str) :=
+  if (hdrGet h o).isEmpty || !(hdrGet h n).isEmpty then h else hdrDel (hdrSet h n (hdrGet h o)) o
+
+/-- mod_header.setScheme -/
+def setScheme (uri scheme : Str) : Str :=
+  if sHttp.isPrefixOf uri || sHttps.isPrefixOf uri then
+    match indexOf [':'] uri 0 with
+    | some i => scheme ++ uri.drop i
+    | none => uri
+  else uri
+
+/-- mod_header.addQuery for URIs without fragment / userinfo (url.Parse + String() round-trips them) -/
+def addQuery (uri k v : Str) : Str :=
+  if uri.contains '?' then uri ++ '&' :: k ++ '=' :: v else uri ++ '?' :: k ++ '=' :: v
+
+inductive HCmd where
+  | set | add | del | rename | modScheme | modQuery
+  deriving DecidableEq, Repr
+
+/-- processHeader + HeaderActionDo on one header map; `ps` as produced by actionConvert (keys canonical) -/
+def doHeader (c : HCmd) (ps : List Str) (h : List (Str × List Str)) : List (Str × List Str) :=
+  let p0 := ps.getD 0 []
+  let p1 := ps.getD 1 []
+  match c with
+  | .set => hdrSet h (canon p0) p1
+  | .add => hdrAdd h (canon p0) p1
+  | .del => hdrDel h (canon p0)
+  | .rename => hdrRename h (canon p0) (canon p1)
+  | .modScheme =>
+    let v := hdrGet h (canon p1)
+    if v.isEmpty then h else hdrSet h (canon p1) (setScheme v (ps.getD 2 []))
+  | .modQuery =>
+    let v := hdrGet h (canon p1)
+    if v.isEmpty then h else hdrSet h (canon p1) (addQuery v (ps.getD 2 []) (ps.getD 3 []))
+
+/-- mod_header.ActionFileCheck (header commands; cookie commands are outside this model) -/
+def headerCheck (cmd : String) (ps : List Str) : Except String (HCmd × List Str) :=
+  let body := if cmd.startsWith "REQ_" || cmd.startsWith "RSP_" then (cmd.drop 4).toString else "?"
+  let emptyChk (r : HCmd × List Str) : Except String (HCmd × List Str) :=
+    if ps.any (·.isEmpty) then .error "empty" else .ok r
+  if body == "HEADER_SET" then (if ps.length != 2 then .error "arity" else emptyChk (.set, ps))
+  else if body == "HEADER_ADD" then (if ps.length != 2 then .error "arity" else emptyChk (.add, ps))
+  else if body == "HEADER_RENAME" then (if ps.length != 2 then .error "arity" else emptyChk (.rename, ps))
+  else if body == "HEADER_DEL" then (if ps.length != 1 then .error "arity" else emptyChk (.del, ps))
+  else if body == "HEADER_MOD" then
+    let sub := String.ofList (upper (ps.getD 0 []))
+    let key := String.ofList (canon (ps.getD 1 []))
+    let keyOK := key == "Referer" || key == "Location"
+    let p2 := String.ofList (ps.getD 2 [])
+    if ps.length != 3 && ps.length != 4 then .error "mod"
+    else if sub == "SCHEME_SET" then
+      (if ps.length == 3 && keyOK && (p2 == "http" || p2 == "https") then emptyChk (.modScheme, ps) else .error "mod")
+    else if sub == "QUERY_ADD" then
+      (if ps.length == 4 && keyOK then emptyChk (.modQuery, ps) else .error "mod")
+    else .error "mod"
+  else .error "cmd"
+
+/-! ### mod_redirect -/
+
+inductive RCmd where
+  | urlSet | urlFromQuery | urlPrefixAdd | schemeSet
+  deriving DecidableEq, Repr
+
+/-- `URL.RequestURI()` for the origin-form requests of the harness -/
+def requestURI (path rawq : Str) : Str := path ++ (if rawq.isEmpty then [] else '?' :: rawq)
+
+/-- `url.Values.Get` on the parsed query -/
+def queryGet (rawq k : Str) : Str :=
+  match (parseQuery rawq).find? (·.1 == k) with
+  | some (_, v) => v
+  | none => []
+
+/-- redirectExclusiveActionDo: the new `req.Redirect.Url` -/
+def doRedirect (c : RCmd) (p : Str) (host path rawq : Str) : Str :=
+  match c with
+  | .urlSet => p
+  | .urlFromQuery => queryGet rawq p
+  | .urlPrefixAdd => p ++ requestURI path rawq
+  | .schemeSet => p ++ [':','/','/'] ++ host ++ requestURI path rawq
+
+/-- mod_redirect.ActionFileListCheck; `ps = none`: no Params key -/
+def redirectCheck (acts : List (String × Option (List Str))) : Except String (RCmd × Str) :=
+  match acts with
+  | [(cmd, ps)] =>
+    let c? : Option RCmd :=
+      if cmd == "URL_SET" then some .urlSet else if cmd == "URL_FROM_QUERY" then some .urlFromQuery
+      else if cmd == "URL_PREFIX_ADD" then some .urlPrefixAdd else if cmd == "SCHEME_SET" then some .schemeSet else none
+    match c?, ps with
+    | none, _ => .error "cmd"
+    | some _, none => .error "noparams"
+    | some c, some l =>
+      if l.length != 1 then .error "arity"
+      else
+        let p := l.getD 0 []
+        if c == .schemeSet then
+          let lp := p.map Char.toLower
+          if String.ofList lp == "http" || String.ofList lp == "https" then .ok (c, lp) else .error "scheme"
+        else .ok (c, p)
+  | [] => .error "empty-list"
+  | _ => .error "multi"
+
 end BfeVerif.C49
